@@ -889,3 +889,85 @@ def alias_grid() -> T.Iterator[T.Tuple[str, str, T.Dict[str, str]]]:
                        "sp = subproject('sp')\na = sp.get_variable('a')\nb = sp.get_variable('a')\n" + op +
                        "c = sp.get_variable('a')\nmessage(a)\nmessage(b)\nmessage(c)\n",
                        {'subprojects/sp': "project('sp')\n" + o})
+
+
+# ---------------------------------------------------------------- string methods / substitution, exhaustively on short strings
+
+def _strings(alphabet: str, maxlen: int) -> T.List[str]:
+    out = ['']
+    layer = ['']
+    for _ in range(maxlen):
+        layer = [s + c for s in layer for c in alphabet]
+        out += layer
+    return out
+
+
+def _q(s: str) -> str:
+    return "'" + s.replace('\\', '\\\\').replace("'", "\\'").replace('\n', '\\n').replace('\t', '\\t') + "'"
+
+
+def _pack(tag: str, exprs: T.Iterable[str], per: int = 40) -> T.Iterator[T.Tuple[str, str]]:
+    """many non-failing calls per program (one statement each)"""
+    buf: T.List[str] = []
+    for e in exprs:
+        buf.append(f'r{len(buf)} = {e}')
+        if len(buf) == per:
+            yield tag, '\n'.join(buf) + '\n'
+            buf = []
+    if buf:
+        yield tag, '\n'.join(buf) + '\n'
+
+
+def string_grid(full: bool) -> T.Iterator[T.Tuple[str, str]]:
+    """every string method of the formatting / splitting family on ALL short strings over small alphabets chosen so
+    that separators overlap, placeholders nest and touch, and indices fall on, inside and outside the bounds:
+    split/join/replace/strip/contains/startswith/endswith over {a, b, ','}; strip() over blanks; substring over all
+    index pairs in [-len-2, len+2]; .format() templates over {@, 0, 1, x} (arguments that are themselves placeholders);
+    f-string templates over {@, x, 1, _} with every short identifier defined (values that are themselves placeholders)"""
+    n = 4 if full else 3
+    recv = _strings('ab,', 5 if full else 4)
+    args = [a for a in _strings('ab,', 2)]
+    yield from _pack('sg:split', (f'{_q(s)}.split({_q(a)})' for s in recv for a in args if a))
+    yield from _pack('sg:join-split', (f'{_q(a)}.join({_q(s)}.split({_q(a)})) == {_q(s)}' for s in recv for a in args if a))
+    yield from _pack('sg:replace', (f'{_q(s)}.replace({_q(a)}, {_q(b)})' for s in recv for a in args if a for b in ('', 'x', 'ab', a + a)))
+    yield from _pack('sg:replace-empty', (f'{_q(s)}.replace(\'\', {_q(b)})' for s in recv[:40] for b in ('', 'x', 'ab')))
+    yield from _pack('sg:strip-chars', (f'{_q(s)}.strip({_q(a)})' for s in recv for a in args))
+    yield from _pack('sg:strip', (f'{_q(s)}.strip()' for s in _strings(' a\n\t', n + 1)))
+    for m in ('contains', 'startswith', 'endswith'):
+        yield from _pack(f'sg:{m}', (f'{_q(s)}.{m}({_q(a)})' for s in recv for a in args))
+    yield from _pack('sg:join', (f'{_q(a)}.join([{", ".join(_q(p) for p in parts)}])' for a in args
+                                  for parts in ([], [''], ['a'], ['a', ''], ['', ''], ['a', 'b', ','], [',', 'ab'])))
+    yield from _pack('sg:split-ws', (f'{_q(s)}.split()' for s in _strings(' a\n', n + 1)))
+    yield from _pack('sg:case', (f'[{_q(s)}.to_upper(), {_q(s)}.to_lower(), {_q(s)}.underscorify()]' for s in _strings('aZ_-1€', 2)))
+    for s in ('', 'a', 'ab', 'abc', 'abcd'):
+        rng_ = range(-len(s) - 2, len(s) + 3)
+        yield from _pack('sg:substring', [f'{_q(s)}.substring({a}, {b})' for a in rng_ for b in rng_] + [f'{_q(s)}.substring({a})' for a in rng_]
+                         + [f'{_q(s)}.substring()'])
+    yield 'sg:split-empty-sep', "r = 'ab'.split('')\n"
+    # .format(): two arguments, the first of which looks like a placeholder itself
+    import re as _re
+    fargs = "'@1@', 'B'"
+    ok: T.List[str] = []
+    for t in _strings('@01x', 5 if full else 4) + ['@0@@1@', '@1@@0@@1@', '@00@', '@01@x', 'x@1@0@', '@0@1@', '@@0@@', '@10@', '@2@', '@0@@2@']:
+        if any(int(m) >= 2 for m in _re.findall(r'@([0-9]+)@', t)):
+            yield 'sg:format-out-of-range', f"r = {_q(t)}.format({fargs})\n"      # must fail: a program of its own
+        else:
+            ok.append(f'{_q(t)}.format({fargs})')
+    yield from _pack('sg:format', ok)
+    yield from _pack('sg:format-values', (f"'<@0@|@1@>'.format({a}, {b})" for a in SAMPLES['int'] + SAMPLES['bool'] + SAMPLES['str'] + SAMPLES['arr'] + SAMPLES['dict']
+                                          for b in ('1', 'true', "'1'", '[true, 1]', "{'a': true}")))
+    # f-strings: every identifier of up to three characters over {x, _, 1} is defined; x itself holds a placeholder text
+    idents = [a + r for a in 'x_' for r in _strings('x_1', 2)]
+    defs = ''.join(f"{i} = {_q('@x@' if i == 'x' else i.upper() + str(k))}\n" for k, i in enumerate(idents))
+    buf = []
+    for t in _strings('@x1_', 5 if full else 4) + ['@x@@x@', '@x@x@', '@@x@@', '@x1@@_@', '@1x@', '@x_1@']:
+        buf.append(f"r{len(buf)} = f{_q(t)}")
+        if len(buf) == 40:
+            yield 'sg:fstring', defs + '\n'.join(buf) + '\n'
+            buf = []
+    if buf:
+        yield 'sg:fstring', defs + '\n'.join(buf) + '\n'
+    for t in ('@y@', '@x@@y@', 'a@y@', '@xy@', '@x1x1@'):
+        yield 'sg:fstring-undefined', f"x = 'A'\nr = f{_q(t)}\n"
+    for v in SAMPLES['int'] + SAMPLES['bool'] + SAMPLES['str'] + SAMPLES['arr'] + SAMPLES['dict'] + SAMPLES['range'][:1]:
+        yield 'sg:fstring-values', f"v = {v}\nw = true\nr = f'<@v@|@w@|@v@>'\n"
